@@ -78,6 +78,7 @@ type world struct {
 	m    *bridge.Map
 	env  *refeval.Env
 	opts []xsel.ContextApply
+	ref  bool // realised through R-ref
 }
 
 func newWorld(d *adoc.Doc) (*world, error) {
@@ -86,6 +87,16 @@ func newWorld(d *adoc.Doc) (*world, error) {
 		return nil, err
 	}
 	return &world{d: d, m: m, env: &refeval.Env{Doc: d, NS: canonNS}, opts: nsOpts(canonNS)}, nil
+}
+
+// newRefWorld realises the document through the independent Cursor
+// implementation (R-ref) instead of the library's store.
+func newRefWorld(d *adoc.Doc) (*world, error) {
+	m, err := bridge.FromRef(d)
+	if err != nil {
+		return nil, err
+	}
+	return &world{d: d, m: m, env: &refeval.Env{Doc: d, NS: canonNS}, opts: nsOpts(canonNS), ref: true}, nil
 }
 
 // libEval executes expr from node n through the public API and converts the result.
